@@ -436,10 +436,10 @@ pub fn worker<P: Prop>(a: &WorkerArgs) -> i32 {
             }
         }
         LegKind::Enumerated { count } => {
-            let per = count.div_ceil(u64::from(a.workers.max(1)));
-            let from = per * u64::from(a.index);
-            let to = (from + per).min(count);
-            for idx in from..to {
+            // strided split: worker i takes i, i + W, i + 2W, ... (balances legs whose
+            // expensive cases sit together at one end of the enumeration)
+            let w = u64::from(a.workers.max(1));
+            for idx in (u64::from(a.index)..count).step_by(w as usize) {
                 let Some(case) = P::enum_case(&a.leg, a.tier, idx) else {
                     continue;
                 };
